@@ -600,7 +600,7 @@ Proof.
   keeps_step; [keeps_tac|]. keeps_step; [keeps_tac|].
   destruct (_ || _); [apply IH|].
   cbv zeta. keeps_step; [destruct (_ <? _); [apply send_msg_keeps_aw|keeps_tac]|].
-  keeps_step; [keeps_tac|]. keeps_step; [keeps_tac|]. keeps_step; [keeps_tac|]. keeps_step; [keeps_tac|].
+  keeps_step; [keeps_tac|]. keeps_step; [keeps_tac|].
   keeps_step; [apply send_msg_keeps_aw|apply IH].
 Qed.
 
@@ -616,7 +616,7 @@ Proof.
   keeps_step; [keeps_tac|]. keeps_step; [keeps_tac|].
   destruct (_ || _); [apply IH|].
   cbv zeta. keeps_step; [destruct (_ <? _); [apply send_msg_keeps_awaiting|keeps_tac]|].
-  keeps_step; [keeps_tac|]. keeps_step; [keeps_tac|]. keeps_step; [keeps_tac|]. keeps_step; [keeps_tac|].
+  keeps_step; [keeps_tac|]. keeps_step; [keeps_tac|].
   keeps_step; [apply send_msg_keeps_awaiting|apply IH].
 Qed.
 
